@@ -271,9 +271,16 @@ def item_reads(stmts, p: Prog):
                 names.discard('t')
             reads.append(names)
         else:
+            # read from the stored rate expressions (pharmpy's Expr layer folds conditions such as
+            # `C < C` that plain sympy keeps, so the stored IR is the reference for 'what is read')
+            from pharmpy.model import output
+
             names = set()
-            for r in it[2]:
-                names |= {str(x) for x in to_sympy(r).free_symbols}
+            cn = [f'X{j + 1}' for j in range(it[1])]
+            for j in range(it[1]):
+                dest = s.find_compartment(cn[j + 1]) if j + 1 < it[1] else output
+                rate = s.get_flow(s.find_compartment(cn[j]), dest)
+                names |= {str(x) for x in rate._sympy_().free_symbols}
             names.add('AMT')
             reads.append(names)
     return reads
@@ -623,6 +630,20 @@ def _run_dataflow(spec, leaf_assign=False):
     return CaseInfo(nontrivial=nt, classes=tuple(classes), render=p.render(), evals=evals)
 
 
+def run_ref_trace(p, env, amounts):
+    env = dict(env)
+    trace = []
+    for it in p.items:
+        if it[0] == 'asg':
+            env[it[1]] = ast_eval(it[2], env)
+            trace.append(env[it[1]])
+        else:
+            for j in range(it[1]):
+                env[f'A_X{j + 1}(t)'] = amounts[f'A_X{j + 1}(t)']
+            trace.append(None)
+    return trace
+
+
 def run_ref_prefix(p, env, amounts, hi):
     env = dict(env)
     for it in p.items[:hi]:
@@ -708,10 +729,9 @@ def run_remove_defs(spec):
     removed = set(range(n)) - kept
     if xi in removed:
         raise Violation('remove_symbol_definitions:removed-X', detail=f'X={xi} syms={syms} in {p.render()}')
-    # only definitions of assigned symbols may be removed, never the ODE
-    for r in removed:
-        if p.items[r][0] != 'asg':
-            raise Violation('remove_symbol_definitions:removed-ode', detail=f'{p.render()}')
+    # (an ODE system nobody else needs may be removed as an unused dependency: the property
+    # only forbids removing statements that a remaining statement needs -- counted as a class)
+    ode_removed = any(p.items[r][0] != 'asg' for r in removed)
     # reaching definitions of remaining statements unchanged
     new_reach = reaching([reads[i] for i in pos], [defs[i] for i in pos])
     for a, i in enumerate(pos):
@@ -727,20 +747,37 @@ def run_remove_defs(spec):
                     expected=p.render(),
                     detail=f'X=#{xi} syms={syms}; statement #{i} reads {nm} defined at #{j}, now {nj}; removed={sorted(removed)}',
                 )
-    # numeric confirmation: final values of every symbol still defined are unchanged
+    # numeric confirmation: every kept statement computes the same value as in the original program
     try:
-        ref_env = run_ref(p, env, amounts)
+        ref_trace = run_ref_trace(p, env, amounts)
     except OverflowError:
         raise Reject('overflow')
-    got_env = run_pharmpy(res, env, amounts)
-    for nm in {nm for i in kept for nm in defs[i]}:
-        if not close(got_env[nm], ref_env[nm], rtol=1e-9):
-            if abs(ref_env[nm]) > 1e200:
-                continue
-            raise HarnessError(f'reaching definitions equal but values differ for {nm}: {p.render()}')
+    got_trace = []
+    genv = dict(env)
+    from pharmpy.model import Assignment as _Asg
+
+    for s_ in res:
+        if isinstance(s_, _Asg):
+            try:
+                v = ev(s_.expression, genv)
+            except Undefined as u:
+                raise HarnessError(f'reaching definitions equal but symbol {u} undefined: {p.render()}')
+            genv[str(s_.symbol)] = v
+            got_trace.append(v)
+        else:
+            for a_ in s_.amounts:
+                genv[str(a_)] = amounts[str(a_)]
+            got_trace.append(None)
+    for a, i in enumerate(pos):
+        if ref_trace[i] is None or got_trace[a] is None:
+            continue
+        if not close(got_trace[a], ref_trace[i], rtol=1e-9) and abs(ref_trace[i]) < 1e200:
+            raise HarnessError(f'reaching definitions equal but value of statement #{i} differs: {p.render()}')
     # something was actually removed?
     if removed:
         classes.append('removed_some')
+    if ode_removed:
+        classes.append('removed_unused_ode')
     if any(defs[i] & set(syms) for i in kept if i < xi):
         classes.append('kept_requested_def')
     nt = bool(removed) and any(c in classes for c in ('redef_with_use', 'diamond', 'through_ode'))
